@@ -45,10 +45,12 @@ type Net struct {
 	// Refuse makes Dial fail for these "proto/addr" keys (connection refused).
 	Refuse map[string]bool
 
-	mu   sync.Mutex
-	log  []Packet
-	seen map[string]int
-	wg   sync.WaitGroup
+	mu       sync.Mutex
+	dials    []string
+	log      []Packet
+	seen     map[string]int
+	wg       sync.WaitGroup
+	scriptMu sync.Mutex
 }
 
 // Log returns a copy of the packets received so far.
@@ -56,6 +58,13 @@ func (n *Net) Log() []Packet {
 	n.mu.Lock()
 	defer n.mu.Unlock()
 	return append([]Packet(nil), n.log...)
+}
+
+// Dials returns every "proto/host" sdns tried to connect to.
+func (n *Net) Dials() []string {
+	n.mu.Lock()
+	defer n.mu.Unlock()
+	return append([]string(nil), n.dials...)
 }
 
 // Count returns the number of packets received so far.
@@ -80,6 +89,9 @@ func (n *Net) Dial(ctx context.Context, proto, addr string) (net.Conn, error) {
 	if err != nil {
 		host = addr
 	}
+	n.mu.Lock()
+	n.dials = append(n.dials, proto+"/"+host)
+	n.mu.Unlock()
 	if n.Refuse[proto+"/"+host] || n.Refuse["*/"+host] {
 		return nil, refusedErr{}
 	}
@@ -266,7 +278,9 @@ func (n *Net) handle(c *memConn, raw []byte) {
 	}
 	var act Action
 	if n.Script != nil {
+		n.scriptMu.Lock() // sdns asks several servers at once; scripts are written single-threaded
 		act = n.Script(p, idx, req, resp, info)
+		n.scriptMu.Unlock()
 	}
 	if act.Drop {
 		return
